@@ -24,8 +24,9 @@ TDeliver == /\ l <= Len(Ev) /\ Cur.a = "D" /\ Cur.exc = 0
             /\ CTDeliver(ToSet(Cur.arg))
             /\ l' = l + 1 /\ UNCHANGED tid
 TLock == /\ l <= Len(Ev) /\ Cur.a = "L" /\ Cur.exc = 0
-         /\ Cur.chain = chain /\ Cur.idx = idx /\ Cur.locked = Cur.arg[1]
-         /\ CTLock(Cur.arg[1])
+         /\ Cur.chain = chain /\ Cur.idx = idx
+         /\ \/ Cur.locked = Cur.arg[1] /\ CTLock(Cur.arg[1])
+            \/ Cur.locked = nlocked /\ CTRelock(Cur.arg[1])
          /\ l' = l + 1 /\ UNCHANGED tid
 TNext == TDeliver \/ TLock
 TSpec == TInit /\ [][TNext]_tvars
